@@ -118,8 +118,16 @@ func run(c Case) error {
 	gkey := func(kind string, g int) string { return fmt.Sprintf("%s/%d", kind, g) }
 	liveNames := map[string]string{} // proxy name -> group key
 	domain := func(kind string, g, param int) string {
+		// odd groups spell their domain with upper-case letters (host names are case-insensitive; every member of a
+		// group uses the same spelling)
 		if param == 1 {
+			if g%2 == 1 {
+				return fmt.Sprintf("Alt-%s-G%d.Test", strings.ToUpper(kind), g)
+			}
 			return fmt.Sprintf("alt-%s-g%d.test", kind, g)
+		}
+		if g%2 == 1 {
+			return fmt.Sprintf("%s-G%d.Test", strings.ToUpper(kind), g)
 		}
 		return fmt.Sprintf("%s-g%d.test", kind, g)
 	}
